@@ -26,7 +26,7 @@ PLAN = {
                 "the global buckets, else a summary with the configured / default window, and get_distribution_type says \"histogram\" exactly then.",
         "note": "All Kani harnesses that touch a vector are bounded in its length (<= 4 bounds, batches <= 3). Assumed in the Verus templates: std's "
                 "Vec::retain / sort_by / HashMap collect contracts, quanta Instant = u64 ns, Duration < 2^64 ns, derived Ord on Matcher (Kani-checked on literals), "
-                "str starts_with/ends_with/== as sequence prefix/suffix/equality. Not machine-checked: the multi-bucket merge in snapshot (Kani covers one bucket), "
+                "str starts_with/ends_with/== as sequence prefix/suffix/equality. snapshot's merge is proved over an assumed filter/map/fold + Summary::merge shim (R45) with the real window predicate checked; not machine-checked: "
                 "grid alignment of bucket starts, record_samples' summary arm, sanitisation of names/matchers, DDSketch quantile accuracy.",
     },
     "min_obligations": {"quick": 20, "thorough": 20},
@@ -50,7 +50,7 @@ PLAN = {
         "values 0, 1e-10, -5e-10, +inf); any Summary::add on a stored bucket makes CBMC explore DDSketch's store (> 15 min / > 15 GB). The general add (in-bucket "
         "add, expiry, stepping to the new bucket, truncate, insert) is proved by Verus in rolling.verus.rs with Summary as a ghost sequence of samples, under the "
         "precondition 'non-decreasing sample timestamps' (no stored bucket begins after `now`) and now + 2*duration < 2^64 ns; rewrites R33 (for over &mut Vec -> "
-        "index loop), R35 (a += d -> a = a + d), SPEC-closure on the retain predicate. The multi-bucket merge in snapshot stays with the unit tests",
+        "index loop), R35 (a += d -> a = a + d), SPEC-closure on the retain predicate. snapshot (R45: the filter/map/fold chain becomes a shim, the real predicate stays and is checked against 'began less than count*duration ago') returns exactly the samples of the buckets inside the window",
         "window granularity: snapshot keeps a bucket iff its begin is younger than count*duration; a sample younger than the window but filed in a bucket "
         "that began earlier is dropped with its bucket (up to one duration early). The statement's 'within the rolling window' is read with that "
         "bucket granularity; with a single expired bucket the rendered quantile is 0 although a sample younger than count*duration exists",
@@ -67,7 +67,7 @@ PLAN = {
         # unbounded, on the extracted real text: RollingSummary::{new, add} against the bucket-list contract (every sample with a
         # non-decreasing timestamp is filed into exactly one bucket whose interval contains it; newest first, disjoint, <= max_buckets;
         # only expired buckets are removed, up to the cap; count counts all)
-        {"template": "rolling.verus.rs", "tier": "quick", "rlimit": 60, "min_functions": 3},
+        {"template": "rolling.verus.rs", "tier": "quick", "rlimit": 60, "min_functions": 4},
         # unbounded: Matcher::matches, DistributionBuilder::new's collect+sort closure (lifted), get_distribution,
         # get_distribution_type against "full-name override first, then prefix, then suffix, then global buckets, else summary"
         {"template": "builder.verus.rs", "tier": "quick", "rlimit": 40, "min_functions": 6},
